@@ -73,6 +73,34 @@ def _independent_view(g):
     return _View(g._vertices, es)
 
 
+def g2o_text(g):
+    """the graph as .g2o text in the STANDARD g2o layout, written independently of the library's own exporter (SE(3) graphs: VERTEX_SE3:QUAT,
+    VERTEX_TRACKXYZ, PARAMS_SE3OFFSET id x y z qx qy qz qw, EDGE_SE3:QUAT, EDGE_SE3_TRACKXYZ i j param x y z + upper triangle)"""
+    def nums(xs):
+        return ' '.join(repr(float(x)) for x in xs)
+
+    def triu(M):
+        M = np.asarray(M, dtype=np.float64)
+        return [M[i, j] for i in range(len(M)) for j in range(i, len(M))]
+    lines, params = [], []
+    for e in g._edges:
+        if isinstance(e, EdgeLandmark):
+            key = tuple(float(x) for x in np.asarray(e.offset))
+            if key not in params:
+                params.append(key)
+    for k, key in enumerate(params):
+        lines.append('PARAMS_SE3OFFSET %d %s' % (100 + k, nums(key)))
+    for v in g._vertices:
+        lines.append(('VERTEX_SE3:QUAT %d %s' if isinstance(v.pose, PoseSE3) else 'VERTEX_TRACKXYZ %d %s') % (v.id, nums(np.asarray(v.pose))))
+    for e in g._edges:
+        if isinstance(e, EdgeLandmark):
+            key = tuple(float(x) for x in np.asarray(e.offset))
+            lines.append('EDGE_SE3_TRACKXYZ %d %d %d %s %s' % (e.vertex_ids[0], e.vertex_ids[1], 100 + params.index(key), nums(np.asarray(e.estimate)), nums(triu(e.information))))
+        else:
+            lines.append('EDGE_SE3:QUAT %d %d %s %s' % (e.vertex_ids[0], e.vertex_ids[1], nums(np.asarray(e.estimate)), nums(triu(e.information))))
+    return '\n'.join(lines) + '\n'
+
+
 def prehistory(rng, g, p=0.5):
     """Something that happened to this Graph OBJECT before the run that is being judged, and that must not matter: an optimizer call under
     ANOTHER fixed set (and fix_first_pose), or chi2 queried at other poses -- after which every pose (a fresh copy) and every fixed flag is put
@@ -144,6 +172,7 @@ def mixed_graph(rng, with_custom=True, fixed_mode='first'):
     rng.shuffle(es)
     for e in es:
         e.vertices = None
+    oe.prebind(rng, es, vs2)
     listed = list(vs2)
     g2 = Graph(es, vs2)
     g2._verif_listed = listed          # the vertex list as the caller passed it (fix_first_pose refers to ITS first element)
@@ -153,7 +182,7 @@ def mixed_graph(rng, with_custom=True, fixed_mode='first'):
         ffp = False
         pose_vs = [v for v in vs2 if not isinstance(v.pose, (PoseR2, PoseR3)) or kind in ('R2', 'R3')]
         for v in rng.sample(pose_vs, rng.randint(1, max(1, len(pose_vs) // 2))):
-            v.fixed = True
+            v.fixed = rng.choice([True, True, np.bool_(True), 1])        # a flag from a numpy mask or an int is as good as True
     return g2, kind, ffp
 
 
@@ -174,8 +203,7 @@ def gauss_newton_step(seed, n):
             for x in es:
                 x.vertices = None
             g = Graph(es, g._vertices)
-        if ffp:
-            g._vertices[0].fixed = True
+        first_listed = getattr(g, '_verif_listed', g._vertices)[0]
         hist = prehistory(rng, g, 0.35)
         if rng.random() < 0.2:
             # legal initial guesses that share storage: one pose object handed to several vertices, or several poses built from one array
@@ -202,14 +230,21 @@ def gauss_newton_step(seed, n):
                 free_now = [v for v in g._vertices[1:] if not v.fixed]
                 if len(free_now) >= 2:
                     rng.choice(free_now).fixed = True
+            # fix_first_pose refers to the first vertex of the list the graph was built from: the reference fixes exactly that one (the flag is
+            # NOT set beforehand -- it is optimize() that must set it, on that vertex and no other)
+            was = first_listed.fixed
+            if ffp:
+                first_listed.fixed = True
             H, b, off = dense_system(g)
+            fx_ref = [bool(v.fixed) for v in g._vertices]
+            first_listed.fixed = was
             try:
                 if np.linalg.cond(H) > 1e10:
                     break
                 dx = np.linalg.solve(H, -b)
             except np.linalg.LinAlgError:
                 break
-            expected = [np.array(v.pose) if v.fixed else np.array(v.pose + dx[off[k]:off[k + 1]]) for k, v in enumerate(g._vertices)]
+            expected = [np.array(v.pose) if fx_ref[k] else np.array(v.pose + dx[off[k]:off[k + 1]]) for k, v in enumerate(g._vertices)]
             try:
                 g.optimize(tol=0.0, max_iter=1, fix_first_pose=ffp, verbose=False)
             except Exception as ex:  # noqa
@@ -700,7 +735,8 @@ def linear_optimum(seed, n):
         P = PoseR2 if kind == 'R2' else PoseR3
         nv = rng.randint(2, 30 if rng.random() < 0.2 else 9)
         far = rng.random() < 0.5
-        sc = 1e6 if far else 5.0
+        sc = (1e6 if rng.random() < 0.7 else 10.0 ** rng.uniform(9, 10)) if far else rng.choice([5.0, 5.0, 1e4])
+        aniso = rng.random() < 0.25          # information with eigenvalue ratio up to 1e8
         truth = [np.array([rng.gauss(0, 3) for _ in range(d)]) for _ in range(nv)]
         verts = [Vertex(rng.choice([-1, 1]) * (k + 1) * 13, P([rng.gauss(0, sc) for _ in range(d)])) for k in range(nv)]
         share = rng.random() < 0.3
@@ -725,7 +761,7 @@ def linear_optimum(seed, n):
             pairs.append((b, a))          # anti-parallel multi-edge
         es = []
         for (a, b) in pairs:
-            Om = oe.rand_spd(rng, d, cond=10 ** rng.uniform(0, 4))
+            Om = oe.rand_spd(rng, d, cond=10 ** (rng.uniform(6, 8) if aniso else rng.uniform(0, 4)))
             noise = np.array([rng.gauss(0, 0.3) for _ in range(d)])
             if rng.random() < 0.7:
                 es.append(EdgeOdometry([ids[a], ids[b]], Om, P(list(truth[b] - truth[a] + noise))))
@@ -736,6 +772,7 @@ def linear_optimum(seed, n):
         order = list(range(nv)); rng.shuffle(order)
         vlist = [verts[k] for k in order]
         rng.shuffle(es)
+        oe.prebind(rng, es, vlist)
         g = Graph(es, vlist)
         # independent solution: minimise sum (A x - y)^T Om (A x - y) over the free coordinates
         pos = {v.id: k for k, v in enumerate(vlist)}
@@ -773,7 +810,9 @@ def linear_optimum(seed, n):
             continue
         evals += 1
         got = np.concatenate([np.asarray(v.pose) for v in vlist])
-        scale = 1.0 + np.abs(xs).max() + (sc if far else 0.0) * 1e-3
+        # accuracy is judged against the size of the OPTIMUM: the relative-decrease rule makes the optimizer take at least one more step after the
+        # first, which removes the rounding error a solve from 1e6 units away leaves behind
+        scale = (1.0 + np.abs(xs).max()) * (100.0 if aniso else 1.0) + (sc if far else 0.0) * 1e-11
         if not np.allclose(got, xs, rtol=0, atol=1e-6 * scale):
             fails.append({'law': 'optimize() does not return the weighted least-squares optimum of a linear graph', 'seed': seed, 'case': i,
                           'kind': kind, 'n_vertices': nv, 'n_edges': len(es), 'far_start': far, 'max_abs_diff': float(np.abs(got - xs).max()), 'edge': 'graph',
@@ -1012,6 +1051,18 @@ def local_convergence(seed, n, scale=1.0):
             Graph(fresh, tv).calc_chi2()
             g = Graph(fresh, list(g._vertices))
         prehistory(rng, g, 0.2)
+        if kind == 'SE3' and rng.random() < 0.25 and all(isinstance(e, (EdgeOdometry, EdgeLandmark)) for e in g._edges):
+            # the same problem arriving as a .g2o file in the standard layout (written here, not by the library), loaded by Graph.from_g2o
+            import tempfile
+            import os
+            pth = os.path.join(tempfile.gettempdir(), 'verif_c05_%d.g2o' % os.getpid())
+            try:
+                with open(pth, 'w') as fh:
+                    fh.write(g2o_text(g))
+                g = Graph.from_g2o(pth)
+            finally:
+                if os.path.exists(pth):
+                    os.remove(pth)
         if rng.random() < 0.2:
             # "pose 0 is the origin, so pose 1 starts at the first odometry measurement": a vertex whose initial pose IS the estimate object of an
             # edge leaving the first vertex (only when that guess is inside the neighbourhood, i.e. the first vertex is close to the identity)
@@ -1023,6 +1074,11 @@ def local_convergence(seed, n, scale=1.0):
                     if isinstance(e, EdgeOdometry) and e.vertex_ids[0] == v0.id and type(e.estimate) is type(v0.pose):
                         [w for w in g._vertices if w.id == e.vertex_ids[1]][0].pose = e.estimate
                         break
+        if rng.random() < 0.25:
+            # anchors chosen through a mask: the flag is a numpy.bool_ (or the integer 1)
+            k_a = rng.randrange(1, nv)
+            g._vertices[k_a].fixed = rng.choice([np.bool_(True), 1])       # anchored where it currently is
+            noise_free = False
         info_pow = rng.choice([0, 0, 0, 0, -30, -40])
         if info_pow:
             for e in g._edges:
